@@ -56,7 +56,9 @@ RULE_ADDED = (
               'Round 16: pubkeys exports into a directory holding a longer earlier export. '
               ' '
               'Round 17: secret-like variables (PIN, HSM_PIN, PASSWORD ...) exported in the too'
-              "ls' environment. ")
+              "ls' environment. "
+              ' '
+              'Round 18: PINs with characters between Z and a in ASCII. ')
 RULE = RULE + " " + RULE_ADDED.strip()
 ASSUMPTIONS = [
     "simulated devices (pv/simdev) trusted; operator input is scripted, an exhausted script "
@@ -81,7 +83,10 @@ PINS = {"valid": "abcd1234", "valid2": "Zz345678", "short": "abc1234", "long": "
         "digits-accented": "123456\u00fc",
         # a compliant PIN with a blank, newline or tab around it (nine characters)
         "padded-right": "abcd1234 ", "padded-left": " abcd1234", "padded-nl": "abcd1234\n",
-        "padded-tab-7": "abcd123\t"}
+        "padded-tab-7": "abcd123\t",
+        # characters that sit between 'Z' and 'a' in ASCII (inside the range A-z, not letters)
+        "underscore": "abcd_123", "caret": "abc^1234", "digits-underscore": "1234567_",
+        "backquote": "abcd`123", "brackets": "ab[d]123"}
 ANSWERS = {"yes": "yes\n", "Yes": "Yes\n", "YES": "YES\n", "no": "no\n", "n": "n\n",
            "No": "No\n", "other-yes": "maybe\ny\nyes\n", "other-no": "yep\nNO\n", "eof": "",
            "yes-space": " yes\n"}
